@@ -232,6 +232,8 @@ def judgeLine (line : String) : String :=
     let cls := c.fam ++ (if c.opt == .time then "-T" else "-D") ++ (if c.exact then "" else "-f")
     let model := build geoRat c.opt c.links
     match rhs with
+    | "crash" :: msg => s!"SPEC {cls} process-died(crash-{"-".intercalate msg})"
+    | "timeout" :: msg => s!"SPEC {cls} process-hung(timeout-{"-".intercalate msg})"
     | "buildpanic" :: msg =>
       match model with
       | .error f => s!"OK skipped-{faultName f}"
@@ -247,7 +249,11 @@ def judgeLine (line : String) : String :=
           let ms := c.moments
           match (do expect "|"; expect "R"; pRep pQRes ms.length) rest with
           | none => "BAD parse-results"
-          | some (rs, _) =>
+          | some (rs, rest2) =>
+            -- cc probe: `| C <ncalls> <nreplaced>`; a replaced answer is a concurrent one (class suffix -cc)
+            let cls := match (do expect "|"; expect "C"; let _ ← pNat; pNat) rest2 with
+              | some (k, _) => if k > 0 then cls ++ "-cc" else cls
+              | none => cls
             match specNet c d with
             | none => s!"SPEC {cls} a-link-is-missing-from-the-network"
             | some sn =>
